@@ -245,6 +245,29 @@ def selection_part(ck, tier):
                 idents.append({"case": case, "n": n, "d": d, "optimizer": opt, "cross_val": cv, "kernel": kern.__name__, "mean": mean.__name__, "bounds_given_by_user_for": user,
                                "hyperpars": hp.tolist(), "bounds": b.tolist(), "score": s_res, "score_at_centre": s_cen})
                 ck.case(("select", case, opt, cv))
+    # noise-free data (no errors given): the optimiser often stops at the good optimum with a warning flag; the selection still scores at least
+    # as well as the centre of the box, which is one of the starting points
+    xn = np.linspace(0, 10, 25)
+    for sd_ in range(8 if tier == "quick" else 24):
+        for cv in (False, True):
+            np.random.seed(sd_)
+            try:
+                with warnings.catch_warnings(), np.errstate(all="ignore"):
+                    warnings.simplefilter("ignore")
+                    gp = GpRegressor(xn, np.sin(xn), cross_val=cv, optimizer="bfgs", n_starts=6)
+                    hp = np.asarray(gp.hyperpars, dtype=float)
+                    b = np.array(gp.hp_bounds, dtype=float)
+                    s_res, s_cen = float(gp.model_selector(hp)), float(gp.model_selector(0.5 * (b[:, 0] + b[:, 1])))
+            except Exception as ex:
+                ck.violation("automatic hyper-parameter selection raised", {"data": "sin(x) without errors", "seed": sd_, "cross_val": cv, "error": repr(ex)[:300]},
+                             site="GpRegressor.select")
+                continue
+            width = b[:, 1] - b[:, 0]
+            events.append({"opt": "bfgs", "cv": cv, "inbounds": bool(np.all(hp >= b[:, 0] - 1e-9 * width) and np.all(hp <= b[:, 1] + 1e-9 * width)),
+                           "better": bool(s_res >= s_cen - 1e-9 * max(1.0, abs(s_cen)))})
+            idents.append({"case": "noise-free sin(x), 25 points", "numpy_seed": sd_, "optimizer": "bfgs", "cross_val": cv, "hyperpars": hp.tolist(), "bounds": b.tolist(),
+                           "score": s_res, "score_at_centre": s_cen})
+            ck.case(("select-noise-free", sd_, cv))
     # the multi-start optimiser on several processes: the centre of the bounds box is among the starting points handed to the workers
     import inference.gp.regression as _reg
 
